@@ -143,3 +143,78 @@ func describeAns(o Obs) string {
 func init() {
 	scriptReplayers["srvseq"] = replaySrvSeq
 }
+
+// shrinkSrvFindings: delta debugging over the recorded history of each server finding — the history is re-run
+// (real server, virtual clock, absolute receive times kept) with chunks of messages removed, and a removal is
+// kept when the same finding (property, signature) still occurs.  Histories whose outcome depends on rand.Perm may
+// not reproduce; then the chunk simply stays.  Bounded: at most `budget` re-runs per finding.
+func shrinkSrvFindings(t *testing.T, s *Stream, maxFindings, budget int) {
+	s.mu.Lock()
+	finds := append([]Finding(nil), s.Finds...)
+	s.mu.Unlock()
+	done := 0
+	for idx, f := range finds {
+		if done >= maxFindings || !strings.HasPrefix(f.Stream, "srvseq") || f.Config == "" || len(f.Ops) < 3 || f.ShrunkFrom > 0 {
+			continue
+		}
+		done++
+		runs := 0
+		reproduces := func(ops []string) bool {
+			if runs >= budget {
+				return false
+			}
+			runs++
+			sc := NewScratchStream("shrink")
+			ok := false
+			func() {
+				defer func() { recover() }()
+				replaySrvSeq(t, sc, &Replay{Config: f.Config, Ops: ops})
+			}()
+			for _, g := range sc.Finds {
+				if g.Property == f.Property && g.Signature == f.Signature {
+					ok = true
+				}
+			}
+			return ok
+		}
+		ops := append([]string(nil), f.Ops...)
+		if !reproduces(ops) {
+			continue // not deterministic under replay: keep the full history
+		}
+		for n := 2; len(ops) >= 2 && runs < budget; {
+			chunk := (len(ops) + n - 1) / n
+			reduced := false
+			for start := 0; start < len(ops) && runs < budget; start += chunk {
+				end := min(start+chunk, len(ops))
+				if end == len(ops) && start == 0 {
+					continue
+				}
+				cand := append(append([]string(nil), ops[:start]...), ops[end:]...)
+				if len(cand) > 0 && reproduces(cand) {
+					ops = cand
+					n = max(n-1, 2)
+					reduced = true
+					break
+				}
+			}
+			if !reduced {
+				if chunk == 1 {
+					break
+				}
+				n = min(n*2, len(ops))
+			}
+		}
+		if len(ops) < len(f.Ops) {
+			s.mu.Lock()
+			if idx < len(s.Finds) && s.Finds[idx].Signature == f.Signature {
+				s.Finds[idx].ShrunkFrom = len(f.Ops)
+				s.Finds[idx].Ops = ops
+			}
+			s.mu.Unlock()
+			s.Count("shrunk")
+		}
+	}
+	s.mu.Lock()
+	s.writeStats()
+	s.mu.Unlock()
+}
